@@ -3,6 +3,7 @@
  *   seed HEX                     randombytes_init                                              -> R ok
  *   k2i f v0 v1                  L := id2iso_kernel_dlogs_to_ideal_two((v0,v1), f)              -> R <norm>
  *   contains x0 x1 x2 x3 den     (signed) is (x0 + x1 i + x2 j + x3 k)/den in L ?               -> R 0|1
+ *   i2iso                        id2iso_ideal_to_isogeny_even_dlogs(L)                          -> R length d0 d1 | Kx (affine, re im)
  *   i2k                          id2iso_ideal_to_kernel_dlogs_even(L)                           -> R w0 w1
  *   ideal bits                   I := random O0-ideal of random prime norm of `bits` bits       -> R <norm>
  *   equiv                        J := I * conj(g)/N(I) for a random g in I with N(J) odd        -> R <norm J>
@@ -76,6 +77,12 @@ int main(void)
             id2iso_ideal_to_kernel_dlogs_even(&w, &L);
             gmp_printf("R %Zx %Zx\n", w[0], w[1]);
             ibz_vec_2_finalize(&w);
+        } else if (!strcmp(t[0], "i2iso") && haveL) {
+            ec_isog_even_t isog; ibz_vec_2_t d; ibz_vec_2_init(&d);
+            id2iso_ideal_to_isogeny_even_dlogs(&isog, &d, &L);
+            gmp_printf("R %x %Zx %Zx |", (unsigned)isog.length, d[0], d[1]);
+            a9_print_affx(&isog.kernel); printf("\n");
+            ibz_vec_2_finalize(&d);
         } else if (!strcmp(t[0], "ideal") && n == 2) {
             ibz_t nn; ibz_init(&nn);
             generate_random_prime(&nn, 1, (int)a9_parse_long(t[1]));
